@@ -6,6 +6,11 @@ CONSTANTS
   MAXOUT = 50
   FAST = FALSE
   STRICT = TRUE
+  REQUEUE = FALSE
+  HOSTILE = FALSE
+  GUARD = FALSE
 INVARIANT PipelineBound
-INVARIANT Partition
+INVARIANT WireBound
+INVARIANT NoDoubleOpen
+CONSTRAINT Small
 CHECK_DEADLOCK FALSE
